@@ -12,7 +12,7 @@ TECH = "Coq proof over a Gallina model + vm_compute model/implementation corresp
 SPEC = {
     "C01": ("Kernel-checked theorems: the model evaluator equals the expected terminal payoff (leaf sum) for every profile; under WFgame + PerfectRecall + ChanceOK (what from_root guarantees, C11) the best-response value is an upper bound over every behavioural deviation and is attained by a pure strategy, so each reported regret is exactly the largest unilateral gain, non-negative, total = max; zero regret iff equilibrium. Correspondence of get_info with the model at binary64 + independent exhaustive best-response oracle as monitor.", "7 (C01)", ""),
     "C02": ("Kernel-checked CFR theorem on the model: regret decomposition into the model's own cumulative counterfactual regrets, average-strategy realisation under perfect recall, best response (C01): for every accepted game, budget and stop predicate the returned total bound >= true regret of the returned profile, player bounds >= 0, early stop => true regret below the threshold; with C03 the true-regret rate for vanilla; threads by C06. Correspondence of solve(Full, vanilla) + monitor bound >= true regret (get_info and independent exhaustive best response).", "7 (C02)", "Rounding: the theorem is over R; the monitor allows 1e-9 relative slack. "),
-    "C03": ("Kernel-checked CFR rate of the returned bounds for EVERY parameter set, oracle, budget and stop predicate: b_pl <= 2*D*N*sqrt(A)/sqrt(T) (regret-matching potential, counterfactual mass <= 1 under perfect recall, increments bounded by the payoff range), every prefix; clause 2 proved for vanilla (via C02) and for lcfr (weighted decomposition; for lcfr only b1+b2 dominates, max(b1,b2) refuted). Correspondence + monitors of both envelopes on adversarial games.", "7 (C03)", "PARTIAL: the true-regret rate for cfr_plus/dcfr/dcfr_prune (Brown-Sandholm 2019) is not proved; it is decided by the monitor. "),
+    "C03": ("Kernel-checked CFR rate of the returned bounds for EVERY parameter set, oracle, budget and stop predicate: b_pl <= 2*D*N*sqrt(A)/sqrt(T) (regret-matching potential, counterfactual mass <= 1 under perfect recall, increments bounded by the payoff range), every prefix; clause 2 (true regret <= 6*D*N*(sqrt A + 1/sqrt T)/sqrt T) proved for every documented preset: vanilla (via C02), lcfr (weighted decomposition; only b1+b2 dominates there, max(b1,b2) refuted), cfr_plus / dcfr / dcfr_prune (summation by parts over discounted regrets). Correspondence + monitors of both envelopes on adversarial games.", "7 (C03)", "Both clauses are theorems over R; the monitors add the binary64 reading. "),
     "C04": ("PARTIAL. Kernel-checked pathwise facts with every sampling decision universally quantified: the bounds returned by the chance-sampled and external-sampled solvers obey 2*D*N*sqrt(A)/sqrt(T) for every oracle (in range), params, budget, stop predicate, thread target and schedule; one-step unbiasedness of the sampled regret increments (finite expectation over one draw per infoset) when no chance infoset repeats on a path, refuted otherwise. Correspondence under pinned draws + statistical monitor under seeded weight-honouring sampling.", "7 (C04)", "PARTIAL: the concentration step (high-probability bound on the TRUE regret) and the empirical sentence are decided statistically, not proved. Known finding: a chance infoset repeated on one path makes the sampled solvers converge on a different game (listed). "),
     "C05": ("Kernel-checked invariants of the solver model for every method, oracle, parameter set, budget and stop predicate "
             "(every strategy row is a distribution, cum_strat >= 0, returned profile valid, bounds non-negative and None iff no "
